@@ -204,7 +204,7 @@ func TestCheck(t *testing.T) {
 	shim = filepath.Join(drv.VerifDir(), "js", "sched_shim.js")
 	nCfg, perBundle, budget := 96, 8, 12
 	if drv.Thorough() {
-		nCfg, perBundle, budget = 1000, 10, 24
+		nCfg, perBundle, budget = 500, 10, 24
 	}
 	var bundles [][]chanmodel.Config
 	for i := 0; i < nCfg; i += perBundle {
